@@ -65,6 +65,12 @@ Definition append (c : nat) (st : fstate) (cs : record) : res :=
   | Err st1 => Err st1
   end.
 
+(* an Encode impl that gives up after having written the chunks cs (encode returns Err):
+   `encoder.encode(..)?` leaves append before the flush; what was written stays where it
+   is - on disk as far as the BufWriter spilled it, in the buffer otherwise *)
+Definition append_enc_fails (c : nat) (st : fstate) (cs : record) : res :=
+  Err (match write_chunks c cs st with Ok s => s | Err s => s end).
+
 (* a history of appends on one appender; an Err is reported to the caller and
    the appender stays usable (state as left by the failing call) *)
 Definition res_state (r : res) : fstate := match r with Ok s => s | Err s => s end.
